@@ -192,7 +192,11 @@ func (ao *accountObject) GetCommittedData(db AccountDatabase, key []byte) []byte
 
 	if value != nil {
 		ao.cachedLock.Lock()
-		ao.cachedStorage[string(key)] = value
+		// never overwrite an entry that is already cached: it may be a pending
+		// (uncommitted) write, which a read of the committed value must not clobber
+		if _, exists := ao.cachedStorage[string(key)]; !exists {
+			ao.cachedStorage[string(key)] = value
+		}
 		ao.cachedLock.Unlock()
 	}
 	return value
